@@ -41,25 +41,26 @@ type immFail struct {
 }
 
 type immRun struct {
-	seed     int64
-	shadow   *rand.Rand
-	pos      int64 // values consumed from the global stream so far
-	depth    int
-	stack    []version
-	ops      []string
-	opPos    []int64
-	nodes    int64 // operations executed (= DFS nodes)
-	reads    int64 // version re-reads
-	stacks   map[uint64]struct{}
-	hash     []uint64
-	fails    map[string]*immFail
-	maxSeen  int
-	samples  [][]string
-	stop     func() bool
-	capped   bool
-	f        failures
-	ctx      []byte
-	savePool [][]savedIter
+	seed      int64
+	shadow    *rand.Rand
+	pos       int64 // values consumed from the global stream so far
+	depth     int
+	stack     []version
+	ops       []string
+	opPos     []int64
+	nodes     int64 // operations executed (= DFS nodes)
+	reads     int64 // version re-reads
+	fullReads int64
+	stacks    map[uint64]struct{}
+	hash      []uint64
+	fails     map[string]*immFail
+	maxSeen   int
+	samples   [][]string
+	stop      func() bool
+	capped    bool
+	f         failures
+	ctx       []byte
+	savePool  [][]savedIter
 }
 
 func newImmRun(seed int64, depth int) *immRun {
